@@ -17,6 +17,7 @@ import (
 	"github.com/polydawn/rio/lib/guid"
 	"github.com/polydawn/rio/lib/verifhook"
 	"github.com/polydawn/rio/stitch/placer"
+	"github.com/polydawn/rio/transmat/mixins/filters"
 	"github.com/polydawn/rio/transmat/mixins/log"
 )
 
@@ -93,6 +94,11 @@ func (c cache) Unpack(
 		return resultWareID, c.place(ctx, placementMode, shelf, path)
 	case nil: // Cache has it!  Reaction varies.
 		log.CacheHasIt(monitor, wareID)
+		// A 'reject' rule is a statement about the ware's entries, and the unpacker that would have applied it
+		//  is not going to run: look at the entries on the shelf instead.
+		if err := c.checkRejectRules(filt, shelf); err != nil {
+			return api.WareID{}, err
+		}
 		return resultWareID, c.place(ctx, placementMode, shelf, path)
 	default:
 		// Unknown errors reading cache are mostly considered game over.  Except:
@@ -104,6 +110,23 @@ func (c cache) Unpack(
 			return api.WareID{}, Errorf(rio.ErrLocalCacheProblem, "error reading cache: %s", err)
 		}
 	}
+}
+
+// checkRejectRules applies the filter's reject rules (setid=reject, dev=reject) to every entry of a shelf.
+func (c cache) checkRejectRules(filt api.FilesetUnpackFilter, shelf fs.RelPath) error {
+	_, rejectSetid := filt.Setid()
+	_, rejectDev := filt.Dev()
+	if !rejectSetid && !rejectDev {
+		return nil
+	}
+	shelfFs := osfs.New(c.fs.BasePath().Join(shelf))
+	return fs.Walk(shelfFs, func(node *fs.FilewalkNode) error {
+		if node.Err != nil {
+			return Errorf(rio.ErrLocalCacheProblem, "error reading cache: %s", node.Err)
+		}
+		fmeta := *node.Info
+		return filters.ApplyUnpackFilter(filt, &fmeta)
+	}, nil)
 }
 
 func (c cache) place(
